@@ -23,7 +23,8 @@
 (***************************************************************************)
 EXTENDS Integers, Sequences, FiniteSets, TLC
 
-CONSTANTS NPEERS, NCIDS, MaxOps, MaxChanges, MaxDowns
+CONSTANTS NPEERS, NCIDS, MaxOps, MaxChanges, MaxDowns,
+          BackupsRotate   \* raft backups_rotate: how many old data folders (<folder>.old.N) are kept
 
 PeerOf(i) == "p" \o ToString(i)
 CidOf(i)  == "c" \o ToString(i)
@@ -41,7 +42,7 @@ VARIABLES members,  \* committed raft configuration (set of peers)
           lastIsCfg,\* the last committed entry is a membership change (no pin/unpin since): hashicorp/raft then
                     \* refuses the snapshot-on-shutdown of raftWrapper.Shutdown ("configuration entry at N
                     \* has not been applied"); raft shutdown and the close of raft.db must happen all the same
-          cnt,      \* [ops, changes, downs, ldr]; ldr = p1 (the bootstrap leader) was never stopped or removed
+          cnt,      \* [ops, changes, downs, ldr, bk]; bk[p] = backup folders next to p's data folder;; ldr = p1 (the bootstrap leader) was never stopped or removed
           last      \* [a, at, p, c, out] out \in {"ok","noop","error"}
 
 vars == <<members, status, data, pins, fsm, view, held, lastIsCfg, cnt, last>>
@@ -59,7 +60,7 @@ Init ==
     /\ view = [p \in Peers |-> IF p = "p1" THEN {"p1"} ELSE {}]
     /\ held = [p \in Peers |-> {}]
     /\ lastIsCfg = TRUE
-    /\ cnt = [ops |-> 0, changes |-> 0, downs |-> 0, ldr |-> TRUE]
+    /\ cnt = [ops |-> 0, changes |-> 0, downs |-> 0, ldr |-> TRUE, bk |-> [p \in Peers |-> 0]]
     /\ last = Act("init", NONE, NONE, NONE, "ok")
 
 \* every live member has applied everything and knows the configuration m
@@ -80,7 +81,7 @@ Write(at, c, isPin) ==
 
 \* p is started as a staging peer and joins through `via`
 Join(p, via) ==
-    /\ status[p] = "absent" /\ p \notin members      \* (re-joining a removed peer is not modelled)
+    /\ status[p] \in {"absent", "gone"} /\ p \notin members   \* a removed peer may join again (same identity, same folder)
     /\ via \in members \cap Up /\ Quorum(members)
     /\ cnt.changes < MaxChanges
     /\ members' = members \cup {p}
@@ -104,7 +105,11 @@ PeerAddPresent(at, p) ==
 PeerRemove(at, p) ==
     /\ at \in members \cap Up /\ Quorum(members)
     /\ cnt.changes < MaxChanges
-    /\ cnt' = [cnt EXCEPT !.changes = @ + 1, !.ldr = @ /\ ~(p = "p1" /\ p \in members /\ members # {p})]
+    \* Consensus.Clean of the removed (live) peer: CleanupRaft rotates its data folder into
+    \* <folder>.old.0 (older backups move up, at most BackupsRotate are kept, the oldest is dropped)
+    /\ cnt' = [cnt EXCEPT !.changes = @ + 1, !.ldr = @ /\ ~(p = "p1" /\ p \in members /\ members # {p}),
+                          !.bk = IF p \in members /\ members # {p} /\ status[p] = "up"
+                                 THEN [@ EXCEPT ![p] = IF @ < BackupsRotate THEN @ + 1 ELSE @] ELSE @]
     /\ UNCHANGED held
     /\ IF p \notin members
        THEN /\ last' = Act("rm", at, p, NONE, "noop")
@@ -197,6 +202,10 @@ LastPeerStays == members # {}
 ReadyImpliesSynced == \A p \in members \cap Up : fsm[p] = pins
 \* a removed peer has stopped and discarded its consensus data
 RemovedStops == \A p \in Peers : status[p] = "gone" => p \notin members /\ data[p] # "live"
+\* ... whatever the history of that folder: after the removal completed the live data folder is gone
+\* (rotated into a backup or deleted) and at most BackupsRotate backups exist
+RemovedDataGone == \A p \in Peers : /\ status[p] = "gone" => data[p] = "cleaned"
+                                     /\ cnt.bk[p] <= BackupsRotate
 \* no-ops and refused removals change nothing; membership changes keep the pinset
 NoOpHarmless == [][last'.out \in {"noop", "error"} =>
                      UNCHANGED <<members, status, data, pins, fsm, view>>]_vars
@@ -214,6 +223,9 @@ UnackedFaultyNotCommitted == [][last'.a \in {"fpin", "funpin"} => pins' = pins /
 
 (* Reachability goals (negated): witnesses replayed on the real code.       *)
 \* a member comes back after CIDs it held were unpinned (and possibly re-pinned) meanwhile
+\* a removal whose clean-up has to drop the oldest backup (BackupsRotate backups exist already)
+NoRotationDropsOldest == [][~(\E at, p \in Peers : PeerRemove(at, p) /\ p \in members /\ members # {p}
+                                  /\ status[p] = "up" /\ cnt.bk[p] = BackupsRotate /\ pins # {})]_vars
 NoRestartAfterUnpin == [][~(\E p \in Peers : Restart(p) /\ cnt.ldr /\ \E c \in held[p] : c \notin pins)]_vars
 NoRestartAfterChurn == [][~(\E p \in Peers : Restart(p) /\ cnt.ldr /\ (\E c \in held[p] : c \notin pins)
                                                       /\ (\E c \in pins : c \notin held[p]))]_vars
